@@ -174,12 +174,17 @@ def gen_pulse(rng: random.Random, ch, *, last_phase: float | None = None, d: int
     else:
         phase = pick(rng, PHASE_POOL)
     pps = pick(rng, [0.0, 0.0, 0.0, 0.7, -1.2, 6.5])
-    return {
+    out = {
         "amp": gen_amp_wf(rng, d, ch),
         "det": gen_det_wf(rng, d, ch),
         "phase": phase,
         "pps": pps,
     }
+    if rng.random() < 0.06 and "d" in out["amp"]:
+        # built with Pulse.ArbitraryPhase(amplitude, constant phase waveform, pps)
+        out["det"] = {"w": "const", "d": out["amp"]["d"], "v": 0.0}
+        out["ctor"] = "arbitrary_phase"
+    return out
 
 
 # ------------------------------------------------------------------ EOM setpoints
